@@ -213,7 +213,7 @@ func TypedStore(p model.Pair, s StoreSnap) (map[string]string, error) {
 	return out, nil
 }
 
-func diffTyped(a, b map[string]string) string {
+func DiffTyped(a, b map[string]string) string {
 	keys := map[string]bool{}
 	for k := range a {
 		keys[k] = true
@@ -282,7 +282,7 @@ func CheckHandoffStores(res *Result, ref *Ref, pkg *gen.Pkg) (out []Finding, com
 		}
 		want, _ := TypedStore(pair, ref.RefStoreAt(name, at))
 		compared++
-		if d := diffTyped(got, want); d != "" {
+		if d := DiffTyped(got, want); d != "" {
 			out = append(out, finding("handoff-store/content-differs", "store %s (%s) at hand-off block %d differs from the sequential reference (got vs reference): %s", name, pair, at, d))
 		}
 		var real uint64
@@ -418,7 +418,7 @@ func (c *Cluster) AuditCache(ref *Ref, pkg *gen.Pkg) (out []Finding, facts Audit
 				continue
 			}
 			want, _ := TypedStore(pair, ref.RefStoreAt(mod, end))
-			if d := diffTyped(got, want); d != "" {
+			if d := DiffTyped(got, want); d != "" {
 				out = append(out, finding("audit/kv-content-differs", "%s: snapshot of %s (%s) up to block %d differs from the sequential reference (file vs reference): %s", f.Rel, mod, pair, end, d))
 			}
 		case f.Sub == "states" && rePartial.MatchString(name):
